@@ -7,7 +7,14 @@ Definition two64 : N := 18446744073709551616.
 Definition fnv_offset : N := 14695981039346656037.
 Definition fnv_prime : N := 1099511628211.
 
-Definition fnv_step (h b : N) : N := (N.lxor h b * fnv_prime) mod two64.
+Definition mask64 : N := 18446744073709551615.
+(* multiplication modulo 2^64, computed by masking (fast under vm_compute) *)
+Definition fnv_step (h b : N) : N := N.land (N.lxor h b * fnv_prime) mask64.
+
+Lemma fnv_step_mod h b : fnv_step h b = (N.lxor h b * fnv_prime) mod two64.
+Proof.
+  unfold fnv_step. change mask64 with (N.ones 64). rewrite N.land_ones. reflexivity.
+Qed.
 Definition fnv (bs : list N) : N := fold_left fnv_step bs fnv_offset.
 
 (* little-endian bytes of n, k bytes *)
